@@ -342,14 +342,9 @@ a{T}, *b{T} = array(1, 2, 3)
 result("{T}a", a{T})
 result("{T}b", b{T}[1])
 ''')
-t("boolop_value", "BoolOp(value semantics)", '''
-x{T} = 0 or 5
-result("{T}x", x{T})
-''')
-t("boolop_and_value", "BoolOp(and value semantics)", '''
-x{T} = 3 and 5
-result("{T}x", x{T})
-''')
+# `x = 0 or 5` / `x = 3 and 5`: Guppy types and/or as bool (truth value), Python returns an operand.
+# That is a typing difference of an operator that *is* evaluated (C04 covers truth values), not
+# syntax that is silently ignored, so it is not a template here.
 t("not_int", "UnaryOp(Not on int)", '''
 x{T} = not 3
 result("{T}x", x{T})
@@ -671,7 +666,7 @@ def worker(ctx):
             ctx.unsupported_case(bucket)
 
     for tmpls, ctxs in cases:
-        if ctx.out_of_time(0.6):
+        if ctx.out_of_time(0.8):
             ctx.notes["incomplete_enumeration"] = True
             break
         run_case(tmpls, ctxs)
@@ -701,7 +696,7 @@ SPEC = harness.Spec(
     assumptions=["a compile error of any GuppyError kind counts as 'rejected'; a compiler crash is C02's concern and only labelled here",
                  "CPython 3.12 semantics through pyref; when CPython raises, an accepted program must stop at the same point"],
     shards={"quick": 16, "thorough": 16},
-    budget_s={"quick": 100, "thorough": 900},
+    budget_s={"quick": 150, "thorough": 900},
     params={"quick": {"n_seq": 6}, "thorough": {"n_seq": 300}},
     min_nontrivial=100,
 )
